@@ -76,7 +76,7 @@ class Ctx:
 
 def evaluate(ctx, prop=None, only=None):
     """evaluate every rule serving `prop` (or all). Returns list of Instance."""
-    for rid, rd in RULES.items():
+    for rid, rd in list(RULES.items()):
         if prop is not None and prop not in rd.props:
             continue
         if only is not None and rid not in only:
